@@ -33,6 +33,9 @@ def gen_tasks(tier, seed):
             tasks.append({**base, "kwargs": {"weight_type": "int"}})
             tasks.append({**base, "kwargs": {"weight_type": "int", "optimization_options": {"optimize_with_safe_sequences": False}}})
             tasks.append({**base, "kwargs": {"weight_type": "int", "optimization_options": {"use_min_gen_set_lowerbound": True}}})
+            # non-default settings of the safe-sequence optimisations (bounds instead of rows; no >= rows for edges inside an SCC): the minimum must not move
+            tasks.append({**base, "kwargs": {"weight_type": "int", "optimization_options": {"optimize_with_safe_sequences_fix_via_bounds": True}}})
+            tasks.append({**base, "kwargs": {"weight_type": "int", "optimization_options": {"optimize_with_safe_sequences_allow_geq_constraints": False}}})
             # further flows for the min-gen-set lower bound (walks that take a loop several times, values <= source flow)
             for _r in range(3):
                 wf2 = I.walk_flow(es, rng, weights=(1, 2, 4), max_walks=3)
